@@ -27,7 +27,7 @@
 #include "lib/lha_file_header.h"
 #include "alloc_shim.h"
 
-static int f_alloc, f_bytes, f_hdr, f_safe, f_work, f_mem, f_out;
+static int f_alloc, f_bytes, f_hdr, f_safe, f_work, f_mem, f_out, f_long;
 
 /* ---------- identity of a header: hex of path + filename (all headers passed here are live) ---------- */
 static char idbuf[8][2100]; static int idrot;
@@ -165,7 +165,7 @@ int main(int argc, char **argv)
 			fprintf(stderr, "bad job: %s", line); return 2;
 		}
 		f_alloc = !!strchr(flags, 'a'); f_bytes = !!strchr(flags, 'b'); f_hdr = !!strchr(flags, 'h');
-		f_safe = !!strchr(flags, 's'); f_work = !!strchr(flags, 'w'); f_mem = !!strchr(flags, 'm'); f_out = !!strchr(flags, 'o');
+		f_safe = !!strchr(flags, 's'); f_work = !!strchr(flags, 'w'); f_mem = !!strchr(flags, 'm'); f_out = !!strchr(flags, 'o'); f_long = !!strchr(flags, 'L');
 		/* Reset line */
 		if (strcmp(gt, "-")) {
 			FILE *g = fopen(gt, "r"); int c;
@@ -249,10 +249,12 @@ int main(int argc, char **argv)
 				tail(r);
 				break; }
 			case 'X': {
-				int res; char safe[64]; char *fn = NULL; struct stat sb; int existed = 0, after = 0; char *pth = NULL;
+				int res; char safe[4400]; char *fn = NULL; struct stat sb; int existed = 0, after = 0; char *pth = NULL;
 				LhasaVerifReaderState ps;
 				lhasa_verif_reader_project(r, &ps);
 				if (f_safe) { snprintf(safe, sizeof safe, "x%u", safe_n++); fn = safe; }
+				/* flag L: the caller names the output itself, with a long name (the absolute path of the extraction directory in front) */
+				if (f_long) { char cwd[4200]; if (!getcwd(cwd, sizeof cwd)) strcpy(cwd, "."); snprintf(safe, sizeof safe, "%s/out_%u", cwd, safe_n++); fn = safe; }
 				if (ps.curr_file) {
 					char *p = fn ? strdup(fn) : lha_file_header_full_path(ps.curr_file);
 					if (p) { size_t l = strlen(p); while (l > 1 && p[l - 1] == '/') p[--l] = 0; existed = lstat(p, &sb) == 0; pth = p; }
